@@ -350,6 +350,11 @@ def gen_input_schema(rng, n_inputs=3, n_enums=2, p_bad_default=0.0):
         for f in types[name]["fields"]:
             if rng.random() < 0.45 and named_of(f["type"]) not in inputs:
                 f["default"] = gen_literal(rng, s, f["type"], good=rng.random() >= p_bad_default, for_sdl=True)
+    if p_bad_default > 0 and inputs:
+        # one field whose default is ALWAYS an invalid literal of its type (on the input type nobody else refers to):
+        # an object omitting it must be refused, never delivered with an "undefined" entry
+        types[inputs[-1]]["fields"].append({"name": "fbad", "type": rng.choice([N("Int"), L(NN(N("Int"))), N("Boolean")]),
+                                            "default": ("str", "x")})
     # probe fields
     shapes = []
     for leaf in leaf_pool + inputs:
